@@ -336,6 +336,18 @@ def attrs_equal(ctx, oracle, a, b, where, data_equal=True, same_class=True):
             ctx.violation(oracle, f"{where}: data changed", None, dict(feats, what="data"))
 
 
+def _kw_of(sig, meta):
+    """Constructor keywords reproducing ``sig`` with another meta."""
+    kw = dict(sample_rate=sig.sample_rate, start_time=sig.start_time, meta=meta)
+    if isinstance(sig, pb.RadioSignal):
+        kw.update(center_freq=sig.center_freq, freq_align=sig.freq_align)
+        if not isinstance(sig, pb.BasebandSignal):
+            kw["chan_bw"] = sig.chan_bw
+    if isinstance(sig, pb.DualPolarizationSignal):
+        kw["pol_type"] = sig.pol_type
+    return kw
+
+
 def wl_meta_kinds(ctx, idx, rng):
     """meta given as anything dict() accepts (mappings that are not dicts, pair lists): stored as a plain dict or refused, never verbatim."""
     import collections
@@ -345,9 +357,24 @@ def wl_meta_kinds(ctx, idx, rng):
     kinds = [("MappingProxyType", types.MappingProxyType(dict(base))), ("ChainMap", collections.ChainMap(dict(base), {"c": 3})),
              ("UserDict", collections.UserDict(base)), ("OrderedDict", collections.OrderedDict(base)), ("pairs", list(base.items())),
              ("empty_dict", {}), ("defaultdict", collections.defaultdict(list, base)), ("Counter", collections.Counter("aab"))]
+    # values that are neither a mapping nor None, including the falsy ones, are refused
+    kinds += [("zero", 0), ("false", False), ("zero_float", 0.0), ("one", 1), ("str", "meta")]      # ('' is an empty sequence of pairs: dict('') == {})
     kname, meta = kinds[(idx // 6) % len(kinds)]
-    how = (idx // 48) % 2
+    how = (idx // (6 * len(kinds))) % 2
     o = "meta_contract"
+    if kname in ("zero", "false", "zero_float", "one", "str"):
+        def build_bad():
+            if how == 0:
+                return gen.cls_of(clsname)(gen.np_data(gen.make_signal(rng, clsname, 3, meta=None)[0]), **_kw_of(gen.make_signal(rng, clsname, 3, meta=None)[0], meta))
+            s0, _ = gen.make_signal(rng, clsname, 3, meta={"keep": 1})
+            s0.meta = meta
+            return s0
+        ctx.count("oracle[meta_contract]")
+        ctx.describe_case({"cls": clsname, "meta_kind": kname, "how": ["constructor", "assignment"][how]})
+        ctx.call(o, build_bad, expect=ValueError, where=f"{clsname} meta={meta!r} ({['constructor', 'assignment'][how]})",
+                 features={"kind": kname, "what": "non_mapping_meta"})
+        ctx.bucket("meta_kind", clsname, kname, how)
+        return
     if how == 0:
         sig, exc = ctx.call(o, lambda: gen.make_signal(rng, clsname, 3, meta=meta)[0], expect="any", where=f"{clsname}(meta={kname})")
     else:
@@ -368,6 +395,12 @@ def wl_meta_kinds(ctx, idx, rng):
     with probes.quiet():
         if sig.meta is not None and dict(sig.meta) != dict(meta):
             ctx.violation(o, f"meta={kname}: contents changed", None, {"what": "contents", "kind": kname})
+        if kname == "empty_dict":
+            # an empty dict is a dict, not "no meta": the signal and its copies keep {}
+            for lab, s_ in (("the signal", sig), ("like()", type(sig).like(sig)), ("a slice", sig[0:2]), ("to_dask_array()", sig.to_dask_array())):
+                if s_.meta != {} or s_.meta is None:
+                    ctx.violation(o, f"meta={{}}: {lab} has meta {s_.meta!r}", None, {"what": "empty_dict_lost", "kind": kname})
+                    break
         # derived signals carry a dict too
         d = sig[0:2]
     report(ctx, o, d, f"slice of a signal built with meta={kname}", at_creation=False)
@@ -519,7 +552,7 @@ def workloads(ctx):
         ("negative", 288 if q else 5760, wl_negative),
         ("bad_data", 60 if q else 1200, wl_bad_data),
         ("copies", 180 if q else 7200, wl_copies),
-        ("meta_kinds", 96 if q else 960, wl_meta_kinds),
+        ("meta_kinds", 168 if q else 1680, wl_meta_kinds),
         ("failpoints", 24 if q else 240, wl_failpoints),
     ]
 
